@@ -1252,6 +1252,26 @@ func (cs *State) enterPrevote(height int64, round int32) {
 func (cs *State) defaultDoPrevote(height int64, round int32) {
 	logger := cs.Logger.With("height", height, "round", round)
 
+	// Unlock if we hold a polka for something else from a round after the lock round. addVote
+	// applies this rule only when the vote that completes the polka arrives while
+	// vote.Round <= cs.Round; a polka recorded while we were still in an earlier round is looked at
+	// again only in enterPrecommit of that round, which round skipping can jump over.
+	if cs.LockedBlock != nil {
+		for r := round; r > cs.LockedRound; r-- {
+			blockID, ok := cs.Votes.Prevotes(r).TwoThirdsMajority()
+			if ok && !cs.LockedBlock.HashesTo(blockID.Hash) {
+				logger.Debug("prevote step: unlocking because of a later POL", "pol_round", r)
+				cs.LockedRound = -1
+				cs.LockedBlock = nil
+				cs.LockedBlockParts = nil
+				if err := cs.eventBus.PublishEventUnlock(cs.RoundStateEvent()); err != nil {
+					logger.Error("failed publishing event unlock", "err", err)
+				}
+				break
+			}
+		}
+	}
+
 	// If a block is locked, prevote that.
 	if cs.LockedBlock != nil {
 		logger.Debug("prevote step; already locked on a block; prevoting locked block")
